@@ -54,6 +54,13 @@ func (t *T) Op(op string, observed string) {
 		w = op[:i]
 	}
 	t.Dist["op:"+w]++
+	o := observed
+	if i := strings.IndexAny(o, " ,:;="); i > 0 {
+		o = o[:i]
+	}
+	if len(o) <= 12 {
+		t.Dist["out:"+w+":"+Enc(o)]++
+	}
 }
 
 // Count bumps a distribution counter.
